@@ -41,7 +41,8 @@ class CallMixin:
                 cur = g.get(key) or Sym("seq", Q.Empty(), Spec("seq", VAL))
                 g[key] = Sym("seq", Q.Concat(st, cur.t, Q.Unit(st, ev)), Spec("seq", VAL))
                 st.notes["ghost_appends"] = g
-                return S_val(self.fresh_term(st, "recorded", V))
+                # the result of the k-th recorded call is a function of (its arguments, k): specs name it call_result(key, k)
+                return S_val(uf("rec:" + key, V, IntS, V)(ev, Q.Length(cur.t)))
         lc = getattr(self.contract, "local_contracts", None)
         if lc:
             key = ast.unparse(fn)
